@@ -109,6 +109,7 @@ def run_tree(args):
         src_variants.append((["-c", chans[0] + "/"], [chans[0]], True))        # as shell completion writes it
         src_variants.append((["-c", "./" + chans[0], "--only"], [chans[0]], False))
         src_variants.append((["SYMLINKED_SOURCE"], "", True))                     # source reached through a symlinked directory
+        src_variants.append((["SYMLINKED_DEST"], "", True))                       # destination reached through a symlink of another depth
         if len(chans) > 1:
             src_variants.append((["-c", chans[0], "-c", chans[1]], chans[:2], True))
             src_variants.append((["-c", "%s, %s" % (chans[0], chans[1]), "--only"], chans[:2], False))
@@ -121,7 +122,14 @@ def run_tree(args):
                     src = os.path.join(root, "s%d" % n)
                     dest = os.path.join(root, "d%d" % n)
                     T.make_tree(src, spec)
-                    os.makedirs(dest)
+                    if sargv == ["SYMLINKED_DEST"]:
+                        # e.g. /data/archive -> /mnt/disk1/vol/archive
+                        real_dest = os.path.join(root, "mnt%d" % n, "disk1", "vol", "archive")
+                        os.makedirs(real_dest)
+                        os.symlink(real_dest, dest)
+                        sargv = []
+                    else:
+                        os.makedirs(dest)
                     real_src = src
                     if sargv == ["SYMLINKED_SOURCE"]:
                         link = os.path.join(root, "l%d" % n)
